@@ -26,6 +26,16 @@ func runC03(c *core.Ctx) {
 		runC03Peer(c)
 		return
 	}
+	if c.T.Chance(1, 3) {
+		// (c) simulated-split world: the headers world (forks, reorganisations, Clean, Save, restart,
+		// small prune depths) with chain splits configured at tape-chosen low heights through the verif
+		// hook: the other chain's first header must be refused on every branch and after every
+		// consolidation, reload and reorganisation, and nothing else may change
+		c.Probe("simulated-split-world")
+		hw.Run(c, hw.Opts{Groups: map[string]bool{"c08": true, "c01": true, "c09": true}, MinSteps: 6, MaxSteps: 60, SmallPrune: true,
+			WMint: 60, WDeliver: 25, WClean: 8, WSave: 3, WReload: 4, WAdversarial: 10, WSplit: 120})
+		return
+	}
 	t := c.T
 	ctx := logger.ContextWithNoLogger(context.Background())
 	f556, _, err := fixtures.Load()
@@ -260,12 +270,12 @@ func runC03Peer(c *core.Ctx) {
 func init() {
 	core.Register(&core.Property{
 		ID: "C03", Engine: "G", Level: "exploration", Bubble: true,
-		Rule: "each run is one of two worlds. (a) repository world (sequential): a real headers.Repository on the mainnet configuration with split protection ON is started 20-140 blocks below the BSV/BCH split from the real fixture chain (MockLatest) and receives a tape-chosen interleaving of: the next real header (including the real BSV split header at 556767), synthetic forks started 1-8 blocks below the split and grown across it, impostors at 556767 on the real chain, the real BCH split header and the BSV split header at any time (parent known or not); after every step no header other than the BSV split header may be known at 556767 on any branch, BCH must be answered wrong-chain, BSV accepted once its parent is known. (b) peer world (synctest bubble): a real full or verify-only BitcoinNode performs the handshake and receives one of 9 verification replies (BSV first, BSV first + up to 1200 real followers, BCH first, random first with BSV second, header after genesis, zero headers, non-zero tx count, silence, truncated then close); Verified()/IsReady() must hold iff the first header is the BSV split header, otherwise the connection is closed and nothing reaches the repository; non-trivial = every run; distinct = distinct hash of the canonical event log",
+		Rule: "each run is one of three worlds; (c) simulated-split world: the headers world of C01/C08 (forks, reorganisations, Clean with small prune depths, Save, restart, adversarial submissions) with chain splits configured at tape-chosen low heights through the verif hook SetSplitsForSimulation: the first header of the other chain must be refused as wrong chain on every branch and after every consolidation, reload and reorganisation, every other verdict and every lookup must equal the reference. (a) repository world (sequential): a real headers.Repository on the mainnet configuration with split protection ON is started 20-140 blocks below the BSV/BCH split from the real fixture chain (MockLatest) and receives a tape-chosen interleaving of: the next real header (including the real BSV split header at 556767), synthetic forks started 1-8 blocks below the split and grown across it, impostors at 556767 on the real chain, the real BCH split header and the BSV split header at any time (parent known or not); after every step no header other than the BSV split header may be known at 556767 on any branch, BCH must be answered wrong-chain, BSV accepted once its parent is known. (b) peer world (synctest bubble): a real full or verify-only BitcoinNode performs the handshake and receives one of 9 verification replies (BSV first, BSV first + up to 1200 real followers, BCH first, random first with BSV second, header after genesis, zero headers, non-zero tx count, silence, truncated then close); Verified()/IsReady() must hold iff the first header is the BSV split header, otherwise the connection is closed and nothing reaches the repository; non-trivial = every run; distinct = distinct hash of the canonical event log",
 		Real: append([]string{"headers.Repository with production split configuration (real code)"}, nodeReal...), Stub: nodeStub,
 		Assumptions: []string{"the repository world starts from the test helper MockLatest (the fixture begins at height 556000); a repository started that way has no genesis-rooted branch and cannot consolidate, so Clean/Save/Load are not part of this world (they are covered on genesis-rooted chains by C10-C12)", "difficulty checks are off in the repository world so that forks can be synthesised; split protection stays on",
 			"the BTC split header (height 478559) is not available offline and cannot be forged; the BTC entry of the split table is exercised only through the code path it shares with the BCH entry"},
 		FaultKinds: []string{"fragmentation", "delivery-delay"},
-		ProbeNames: []string{"bch-offered", "bsv-accepted", "fork-below-split", "impostor-at-split-height:impostor", "impostor-at-split-height:fork-grow",
+		ProbeNames: []string{"simulated-split-world", "split-configured", "refusal:wrong-chain", "bch-offered", "bsv-accepted", "fork-below-split", "impostor-at-split-height:impostor", "impostor-at-split-height:fork-grow",
 			"verify-reply:bsv-first", "verify-reply:bsv-first+real-followers", "verify-reply:bch-first", "verify-reply:random-first-bsv-second", "verify-reply:after-genesis", "verify-reply:zero-headers", "verify-reply:nonzero-tx-count", "verify-reply:silence", "verify-reply:truncated"},
 		Run:          runC03,
 		QuickSeconds: 20, ThoroughSeconds: 600, MinRuns: 300, BatchSize: 25, RunTimeoutSeconds: 240,
